@@ -49,7 +49,7 @@ def m0(cx):
         fn = F.impl_fn(im, 'actual_subscribe')
         if fn is None:
             continue
-        g = cx.graph(fn['key'])
+        g = cx.graph(fn['key'], forward=True)      # (a constructor by any name is the struct literal it returns)
         subs = [x for x in g.nodes if x['kind'] in ('call', 'enter') and x['name'] == SUBSCRIBE and not x['ctx']]
         recvs = {recv_class(x['args'][0]) for x in subs}
         if len(subs) < 2 or len(recvs) < 2 or not all(r.startswith('self.') for r in recvs):
@@ -208,6 +208,11 @@ def m4(cx):
         k = '%s::%s' % (roles.impl_tag(cx, im), fn.get('name'))
         if k in M4_SITES or (cx.control and k == 'verif_controls::CloneTick::next'):
             sites.append((k, fn))
+        elif not cx.control and not im.get('trait') and roles.impl_tag(cx, im) == 'ops::buffer::BufferObserver' and k not in M4_SITES:
+            # the private release helper of the buffer (`emit` today), by what it does: an inherent method that delivers downstream
+            g0 = cx.graph(fn['key'], inline=False)
+            if any(down_method(x) == 'next' for x in g0.nodes):
+                sites.append((k, fn))
     for k, fn in sorted(sites, key=lambda x: (x[0], x[1]['key'])):
         g = cx.graph(fn['key'])
         label = cx.label(fn)
